@@ -78,6 +78,9 @@ def _run_case(args):
         ctx = RuleContext(pid, eng, "quick")
         mod = importlib.import_module("rules." + pid.lower())
         mod.run(ctx)
+        from sa.report import settle_unknown_calls
+
+        settle_unknown_calls(ctx)
         vio = [o.key for o in ctx.violations]
         err = None
     except AnalysisError as e:
